@@ -469,7 +469,10 @@ def corpus(plans: list[dict[str, Any]]) -> list[tuple[dict[str, Any], str]]:
     return out
 
 
-def replay(ctx: Any, case: dict[str, Any]) -> None:
+def replay(ctx: Any, case: dict[str, Any] | None) -> None:
+    if case is None:          # a "no-longer-checks" replay carries no single failing input: run the check
+        run(ctx)
+        return
     c = {"sdesc": case["sdesc"], "cdesc": case["cdesc"], "calls": case["calls"], "server_version": case.get("server_version"),
          "bad_version": case.get("bad_version")}
     check_case(ctx, c, case.get("transport", "pipe"), deadline=10.0)
